@@ -56,8 +56,22 @@ func (self *Compiler) compilePrefixOp(op ast.PrefixOperator, span errors.Span) {
 func (self *Compiler) compileCallExpr(node ast.AnalyzedCallExpression) {
 	// Push each argument onto the stack
 	// The order is reversed so that later popping can be done naturally
-	for i := len(node.Arguments.List) - 1; i >= 0; i-- {
-		self.compileExpr(node.Arguments.List[i].Expression)
+	if len(node.Arguments.List) < 2 {
+		for i := len(node.Arguments.List) - 1; i >= 0; i-- {
+			self.compileExpr(node.Arguments.List[i].Expression)
+		}
+	} else {
+		// The arguments must still be evaluated in program order (left to right):
+		// evaluate them into temporaries first, then push the temporaries in reverse order.
+		temporaries := make([]string, len(node.Arguments.List))
+		for i, arg := range node.Arguments.List {
+			self.compileExpr(arg.Expression)
+			temporaries[i] = self.mangleVar(fmt.Sprintf("$arg_%d", i))
+			self.insert(newOneStringInstruction(Opcode_SetVarImm, temporaries[i]), arg.Expression.Span())
+		}
+		for i := len(temporaries) - 1; i >= 0; i-- {
+			self.insert(newOneStringInstruction(Opcode_GetVarImm, temporaries[i]), node.Arguments.List[i].Expression.Span())
+		}
 	}
 
 	if node.Base.Kind() == ast.IdentExpressionKind {
